@@ -70,8 +70,8 @@ theorem media_fixed_point (e : Option Nat) (s : Str) (p p' : MediaPlaylist) (tex
 `media_roundtrip` is discharged line kind by line kind (`written_lines_rt`) for every value in `MediaWF`:
 integers below 2^64, quotable strings, well-formed ranges and keys. What `MediaWF` still takes as given is
 named there: the decimal round trip of each EXTINF duration and of the EXT-X-START offset (facts about Rust's
-float formatting: FL2, FL1 in the trusted base), and the line-level round trip of EXT-X-DATERANGE, of URI lines
-and of unknown tags (written verbatim; derived for parsed values in `media_roundtrip_parsed`). -/
+float formatting: FL2, FL1 in the trusted base; the same inside `ExtXDateRange.WF`), and the line-level round trip
+of URI lines and of unknown tags (written verbatim; derived for parsed values in `media_roundtrip_parsed`). -/
 theorem media_roundtrip_wf (e : Option Nat) (s : Str) (p : MediaPlaylist)
     (h : parseMediaWith (bE e) s = .ok p) (hk2 : NoK2 p) (wf : MediaWF p) :
     ∃ text, p.show = .ok text ∧ parseMediaWith (bE e) text = .ok p :=
@@ -84,9 +84,9 @@ theorem media_fixed_point_wf (e : Option Nat) (s : Str) (p p' : MediaPlaylist) (
 
 /-- **the round trip for everything the parser returns**: whatever text `s` the playlist `p` was parsed from,
 writing `p` and parsing the result gives `p` back — under `NoK2 p` (finding K2: no key line between a
-segment's EXT-X-MAP and its URI) and `MediaOpen p`: Rust's decimal formatting of each EXTINF duration and of the
-EXT-X-START offset reads back (FL2, FL1), and EXT-X-DATERANGE lines — the one tag kind whose line-level round trip
-is not proved here — read back. Everything else `MediaWF` asks for is *derived* from the fact that `p` came out of the parser
+segment's EXT-X-MAP and its URI) and `MediaOpen p`: Rust's decimal formatting reads back — each EXTINF duration,
+the EXT-X-START offset, the two EXT-X-DATERANGE durations and float-valued client attributes (FL2, FL1) — and the
+SCTE35 values of a date range are plain tokens (hexadecimal sequences in valid text). Everything else `MediaWF` asks for is *derived* from the fact that `p` came out of the parser
 (`text_lines_good`, `assembled_mediaWF`): integers are below 2^64, strings are free of quotes and line ends,
 keys have a non-blank URI, a 128-bit IV and at most nine one-byte versions, ranges lie inside 2^64, URI lines and
 unknown tags are trimmed single lines that classify the same way again. -/
